@@ -7,6 +7,6 @@ MC_NearFirst == EnvBool("V_NEAR_FIRST", FALSE)
 Emit ==
   (MC_Emit /\ pc' = "idle" /\ res'.kind # "none" /\ (pc = "loop" \/ ncalls' # ncalls)) =>
      PrintT(<<"HIST", ToJson([planner |-> "rrtstar", topo |-> MC_T, maxd |-> MC_MaxDist, rad2 |-> MC_Rad2, lvs |-> MC_Lvs,
-                             bias |-> MC_Bias, seeded |-> MC_Seeded, valid |-> valid, probs |-> probs,
+                             bias |-> MC_Bias, seeded |-> MC_Seeded, worlds |-> worlds, probs |-> probs,
                              calls |-> hist'])>>)
 =============================================================================
